@@ -57,6 +57,47 @@ impl RecoverError {
     }
 }
 
+/// Builds, in the empty directory `dir`, a log that never crashed and whose observable state equals `state`:
+/// create every queue, append every record at its explicit position, and move emptied queues forward with a
+/// truncate. Returns an error text if the public API cannot reproduce the state (then nothing can be compared).
+pub fn build_equivalent(dir: &Path, policy: Policy, state: &State) -> Result<Driver, String> {
+    crate::util::clear_dir(dir);
+    let (mut driver, outcome) = Driver::open(dir, policy).map_err(|err| err.0)?;
+    if outcome != Outcome::Restarted {
+        return Err(format!("cannot open a fresh directory: {outcome:?}"));
+    }
+    let built = crate::util::guarded(|| -> Result<(), String> {
+        let log = driver.log.as_mut().unwrap();
+        for (name, queue) in state {
+            log.create_queue(name).map_err(|err| format!("create_queue: {err}"))?;
+            for (pos, bytes) in &queue.recs {
+                let outcome = log
+                    .append_record(name, Some(*pos), &bytes[..])
+                    .map_err(|err| format!("append_record: {err}"))?;
+                if outcome.last_position != Some(*pos) {
+                    return Err(format!("append at explicit position {pos} returned {:?}", outcome.last_position));
+                }
+            }
+            if queue.recs.is_empty() && queue.next > 0 {
+                log.truncate(name, ..=queue.next - 1).map_err(|err| format!("truncate: {err}"))?;
+            }
+        }
+        Ok(())
+    });
+    match built {
+        Ok(Ok(())) => {}
+        Ok(Err(msg)) => return Err(msg),
+        Err(panic) => return Err(format!("panic: {panic}")),
+    }
+    let events = mrecordlog::verif_hooks::take_events();
+    driver.tracer.feed(events)?;
+    let observed = driver.observe()?;
+    if observed != *state {
+        return Err("the rebuilt log does not show the wanted state".to_string());
+    }
+    Ok(driver)
+}
+
 /// `got` equals `prev` except that the in-flight truncate / delete_queue `cop` is seen partially
 /// applied: some of the oldest records it targets are already gone from its queue, nothing else.
 pub fn matches_partial(prev: &State, got: &State, cop: &COp) -> bool {
